@@ -417,4 +417,9 @@ def evaluate_logic(op, lval, rval):
         return lval
     if isinstance(rval, error.XLError):
         return rval
-    return OPERATOR_DICT[op](ExcelComparator(lval), rval)
+    try:
+        return OPERATOR_DICT[op](ExcelComparator(lval), rval)
+    except TypeError:
+        # operands that have no order (an array or a complex number against a scalar): an error value
+        # the formula can trap, like every other operator failure
+        return error.VALUE
